@@ -15,6 +15,11 @@ FOREIGN = ["type=BPF msg=audit(1700000000.1:5): prog-id=60 op=LOAD", "Jan  5 10:
            "type=SYSCALL msg=audit(1700000000.1:6): arch=c000003e syscall=59 success=yes", "", "   ", "apparmor", "apparmor=\"WHATEVER\" operation=\"open\""]
 
 
+# entries journald really produces next to the kernel messages: binary MESSAGE as byte array, boot markers
+JOURNAL_FOREIGN = [{"raw_json": '{"MESSAGE": [104, 101, 108, 108, 111, 255], "SYSLOG_IDENTIFIER": "other"}'}, {"raw_json": "-- Boot 4d3f2a1b --"},
+                   {"raw_json": '{"MESSAGE": null}'}, {"raw_json": '{"_PID": "12", "MESSAGE": "plain message"}'}]
+
+
 def tag_of(line):
     m = RE_TAG.search(line)
     if not m:
@@ -88,6 +93,18 @@ def gen_file(rng, fid, journald):
                              ("name", rng.choice(profs)), ("pid", "77"), ("comm", "c" + logsgen.tagstr(tag))]
             rec["expect"] = False
             lines.append(rec)
+        elif r < 0.91:
+            # a truncated record (cut inside a quoted value): malformed, it may or may not be shown, but nothing after it may suffer
+            tag += 1
+            rec = logsgen.gen_record(rng, tag, cls="file", profile=rng.choice(profs), tame=True)
+            vals = dict(rec["fields"])
+            rec["fields"] = [("apparmor", vals["apparmor"]), ("operation", vals["operation"]), ("comm", vals["comm"]), ("profile", vals["profile"]), ("name", vals["name"])]
+            rec["truncated"] = True
+            rec["expect"] = False
+            rec["optional"] = True
+            lines.append(rec)
+        elif r < 0.94:
+            lines.append(rng.choice(JOURNAL_FOREIGN))
         else:
             lines.append(rng.choice(FOREIGN))
     # at most one hostile trigger per file, most files have none
@@ -109,12 +126,23 @@ def encode_file(rng, lines, journald, trigger):
     serial = 0
     for l in lines:
         serial += 1
-        if isinstance(l, dict):
+        if isinstance(l, dict) and "raw_json" in l:
+            out.append((l["raw_json"] if journald else "journal: " + l["raw_json"]).encode())
+        elif isinstance(l, dict):
             if journald:
                 fr = "journald-dbus" if l["cls"] == "dbus" else "journald"
             else:
                 fr = "dbus-syslog" if l["cls"] == "dbus" else l.get("framing") or rng.choice(["audit", "syslog"])
-            out.append(logsgen.render(l["fields"], framing=fr, serial=serial, ts="17000%05d.%03d" % (serial, serial % 1000)).encode("utf-8", "surrogateescape"))
+            txt = logsgen.render(l["fields"], framing=fr, serial=serial, ts="17000%05d.%03d" % (serial, serial % 1000))
+            if l.get("truncated"):
+                if fr.startswith("journald"):
+                    import json as _j
+                    o = _j.loads(txt)
+                    o["MESSAGE"] = o["MESSAGE"][:-3]
+                    txt = _j.dumps(o, ensure_ascii=False)
+                else:
+                    txt = txt[:-3]
+            out.append(txt.encode("utf-8", "surrogateescape"))
         elif isinstance(l, bytes):
             if journald:
                 continue            # journald JSON input is line-wise JSON: raw bytes are not a journald line
@@ -137,7 +165,7 @@ def expected_tags(lines, filt):
     exp = []
     seen = set()
     for l in lines:
-        if not isinstance(l, dict):
+        if not isinstance(l, dict) or "raw_json" in l or l.get("optional"):
             continue
         if l.get("noise") or l["fields"][0][1] not in ("ALLOWED", "DENIED", "AUDIT"):
             continue
@@ -208,6 +236,7 @@ def run(ctx):
     for j, res in pmap(runone, jobs):
         fid, path, journald, mode, filt, lines, trigger = j
         has_rep = any(isinstance(l, dict) and "repeat_of" in l for l in lines)
+        optional = {l["tag"] for l in lines if isinstance(l, dict) and l.get("optional")}
         nt = digest(str(fid), mode, str(filt)) if (filt is not None or trigger or has_rep) else None
         ctx.case(nt, {"file": "f%d.log" % fid, "format": "journald" if journald else "audit/syslog", "mode": mode, "filter": filt, "trigger": trigger} if nt and fid < 3 else None)
         fmt = "journald" if journald else "text"
@@ -232,9 +261,9 @@ def run(ctx):
                 nm = dict((k, v) for (k, v) in l["fields"]).get("name", "")
                 m = re.search(r"zq([g-p]+)\b", nm)
                 return untag(m.group(1)) if m else None
-            file_recs = [l for l in lines if isinstance(l, dict) and l["cls"] in ("file", "exec", "link") and not l.get("noise")]
+            file_recs = [l for l in lines if isinstance(l, dict) and "raw_json" not in l and not l.get("optional") and l["cls"] in ("file", "exec", "link") and not l.get("noise")]
             file_tags = {name_tag(l) for l in file_recs} - {None}
-            got = set(untag(x) for x in re.findall(r"zq([g-p]+)\b", text))
+            got = set(untag(x) for x in re.findall(r"zq([g-p]+)\b", text)) - optional
             exps = set(exp)
             want = {name_tag(l) for l in file_recs if l["tag"] in exps} - {None}
             missing = sorted(want - got)
@@ -255,7 +284,8 @@ def run(ctx):
             if t is None:
                 viol("C14/%s/unidentified-entry%s" % (mode, cls), "f%d %s: output entry matches no input record: %r" % (fid, case["cmd"], line[:200]), dict(case, data=_head(path)))
                 continue
-            got.append(t)
+            if t not in optional:
+                got.append(t)
         if got == exp:
             continue
         gs, es = set(got), set(exp)
@@ -264,7 +294,7 @@ def run(ctx):
             viol("C14/%s/reported-twice%s" % (mode, cls), "f%d %s: record(s) %s reported more than once" % (fid, case["cmd"], twice[:5]), dict(case, data=_head(path)))
         elif es - gs:
             fcls = "/filter" if filt is not None and not (set(expected_tags(lines, None)) - gs) else ""
-            hexprof = {l["tag"] for l in lines if isinstance(l, dict) and logsgen.needs_hex(dict((k, v) for (k, v) in l["fields"]).get("profile", ""))}
+            hexprof = {l["tag"] for l in lines if isinstance(l, dict) and "raw_json" not in l and logsgen.needs_hex(dict((k, v) for (k, v) in l["fields"]).get("profile", ""))}
             if filt is not None and (es - gs) <= hexprof:
                 fcls = "/filter-on-hex-encoded-profile"
             viol("C14/%s/missing%s%s" % (mode, fcls, cls if "hex-encoded" not in fcls else ""), "f%d %s: record(s) %s not reported (%d expected, %d reported)" % (
